@@ -287,3 +287,7 @@ class C20(core.Prop):
 
 
 PROP = C20()
+
+# shape families added after the first complete pass (DESIGN 8.6-8.11); appended to the bounds written into the evidence
+BOUNDS_ADDED = '; plus: missing-fragment shapes on a base graph object that was resolved before'
+PROP.BOUNDS = {k: v + BOUNDS_ADDED for k, v in PROP.BOUNDS.items()}
